@@ -16,7 +16,7 @@ PROP = "C18"
 
 
 def plan(tier, seed):
-    k = 40 if tier == "quick" else 800
+    k = 96 if tier == "quick" else 800
     shards = [{"kind": "lib", "seed": seed, "shard": i, "n": 150} for i in range(k)]
     shards += [{"kind": "cli", "seed": seed, "shard": i, "n": 10} for i in range(8 if tier == "quick" else 120)]
     return shards
